@@ -100,7 +100,7 @@ def run_property(prop, tier, seed, root):
     repo, interp, contracts = driver.load(root, cfg.get("modules"))
     by_name = {c.qualname: c for c in contracts}
     timeout_ms = 10000 if tier == "quick" else 60000
-    select = (lambda c: True) if cfg.get("select_all") else (lambda c: prop in c.props)
+    select = (lambda c: not getattr(c, "c14_exempt", False)) if cfg.get("select_all") else (lambda c: prop in c.props)
     selected = [c for c in contracts if select(c)]
 
     def relevant(cname, oname):
